@@ -11,6 +11,16 @@ reservation check against a fake admin store and an independent sum:
   code wrote; partial updates (partition and/or traits omitted, which the
   schema used by `update` allows) are part of the menu.  After every accepted
   call the store itself must still be within capacity and trait limits.
+* part C - unit spellings: one configuration (capacity, gpu limit, a gpu and
+  a plain reservation) whose four stored records are written in every
+  spelling the unit conversion documents (K M G T [P E] as powers of 1024,
+  KB MB GB TB as powers of 1000, plain bytes '<n>' / '<n>B', lower and mixed
+  case, padded; cpu '<n>%' / bare '<n>'), at most 2 (thorough: 3) of the four
+  records leaving the base style at a time; create / replacing update, with
+  and without the limited trait, schema-valid request sizes around every
+  boundary.  The oracle reads sizes with its own conversion written from the
+  documented meaning.  Part A also has one partition record and one stored
+  reservation written with decimal suffixes.
 
 Verdict per call: returns normally <=> the oracle accepts, InvalidInputError
 <=> the oracle rejects, any other exception is a `service-failure`.
@@ -46,7 +56,17 @@ ASSUMPTIONS = [
     '(stored record overlaid with the request), because that is what is '
     'accepted into the partition; updates are only issued for existing ids and '
     'creates for new ids',
-    'sizes are multiples of 1K, cpu whole percent; menus in coverage.menus',
+    'request sizes are whole K (the schema admits only <n>[KkMmGg]), cpu whole '
+    'percent; menus in coverage.menus',
+    'stored records (partition capacity, trait limits, existing reservations) '
+    'may be written in any spelling the docstring of utils.size_to_bytes '
+    'documents: suffix K/M/G/T/P/E/Z/Y = power of 1024, suffix + B = power of '
+    '1000 (1K = 1024, 1KB = 1000), an integer = bytes, any case, surrounding '
+    'blanks; cpu as <n>% or a bare <n> (utils.cpu_units).  The REST schema and '
+    'the CLI validators write only <n>[KMG]; other spellings reach the '
+    'directory through direct writes.  The reference conversion is independent '
+    'of treadmill; utils.size_to_bytes / cpu_units are probed only to qualify '
+    'the SITE of a decision already found wrong',
 ]
 
 
@@ -60,6 +80,10 @@ def _chunks(tier):
     creates, _updates = m.history_calls(tier)
     for i in range(len(creates)):
         out.append(('B', tier, i))
+    nplan = len(m.spelling_plan(tier))
+    cstep = 80 if tier == 'quick' else 400
+    for lo in range(0, nplan, cstep):
+        out.append(('C', tier, lo, min(nplan, lo + cstep)))
     return out, menu, sets, parts
 
 
@@ -77,7 +101,80 @@ def _first(viols, v):
 def _worker(chunk):
     if chunk[0] == 'A':
         return _worker_a(chunk)
+    if chunk[0] == 'C':
+        return _worker_c(chunk)
     return _worker_b(chunk)
+
+
+_PLAN = {}
+
+
+def _worker_c(chunk):
+    _kind, tier, lo, hi = chunk
+    if tier not in _PLAN:
+        _PLAN[tier] = m.spelling_plan(tier)
+    cnt = collections.Counter()
+    viols = {}
+    samples = []
+    cases = nontrivial = 0
+    for unit, asg in _PLAN[tier][lo:hi]:
+        kinds = set()
+        for st in asg:
+            kinds.add('plain-bytes' if st[0] == 0 else
+                      'decimal-suffix' if st[1] else 'binary-suffix')
+            if st[2]:
+                kinds.add('lower-case')
+            if st[3]:
+                kinds.add('padded')
+            if st[0] >= 4:
+                kinds.add('T-or-larger')
+            if st[1] and (st[1] == 'b') != st[2]:
+                kinds.add('mixed-case')
+        cnt['C_configurations'] += 1
+        for case in m.spelled_cases(unit, asg):
+            if not m.schema_ok(case['rsrc']):
+                raise m.HarnessError('menu request violates schema: %r'
+                                     % (case['rsrc'],))
+            before = m.build_store(case['partitions'], case['existing'])
+            after = before.clone()
+            outcome, info = m.call(after, case['verb'], case['id'],
+                                   case['rsrc'])
+            vs, facts = m.judge(before, after, case['verb'], case['id'],
+                                case['rsrc'], outcome, info)
+            cases += 1
+            cnt['C_cases'] += 1
+            cnt['observed_' + outcome] += 1
+            cnt['expected_' + ('accept' if facts['expect_accept']
+                               else 'reject_' + facts['reason'])] += 1
+            for k in kinds:
+                cnt['C_stored_' + k] += 1
+            # does this case tell the documented reading from a wrong one?
+            for reading in ('all-binary', 'all-decimal'):
+                if m.expected(before, case['verb'], case['id'], case['rsrc'],
+                              reading)[0] != facts['expect_accept']:
+                    cnt['C_verdict_differs_if_read_' + reading] += 1
+            if facts['shared']:
+                nontrivial += 1
+            if case['verb'] == 'update':
+                cnt['replacing_requests'] += 1
+            for v in vs:
+                payload = {k: case[k] for k in
+                           ('kind', 'partitions', 'existing', 'verb',
+                            'id', 'rsrc')}
+                _first(viols, dict(v, replay=payload))
+            if not samples and facts['shared'] and 'decimal-suffix' in kinds \
+                    and case['tag'] == 'mem+1K':
+                samples.append({
+                    'partition': case['partitions'][0],
+                    'existing': [[e['alloc'], e['traits'], e['cpu'],
+                                  e['memory'], e['disk']]
+                                 for e in case['existing']],
+                    'call': [case['verb'], case['id'], case['rsrc']],
+                    'expected': 'accept' if facts['expect_accept']
+                    else 'reject', 'observed': outcome})
+    return {'cases': cases, 'nontrivial': nontrivial, 'states': cases,
+            'violations': list(viols.values()), 'samples': samples,
+            'counters': dict(cnt)}
 
 
 def _worker_a(chunk):
@@ -201,6 +298,14 @@ def run(ctx):
             res.counters.get('expected_reject_capacity', 0) == 0 or \
             res.counters.get('expected_reject_trait', 0) == 0:
         raise m.HarnessError('vacuous run: %r' % dict(res.counters))
+    if res.exhaustive:
+        for name in ('C_verdict_differs_if_read_all-binary',
+                     'C_verdict_differs_if_read_all-decimal',
+                     'C_stored_decimal-suffix', 'C_stored_plain-bytes',
+                     'C_stored_lower-case', 'C_stored_padded',
+                     'C_stored_T-or-larger'):
+            if res.counters.get(name, 0) == 0:
+                raise m.HarnessError('vacuous spelling sweep: %s = 0' % name)
     violations = []
     for v in sorted(res.violation_list(), key=_simplicity):
         v = m.shortest_history(m.shrink(v), tier)
@@ -232,6 +337,16 @@ def run(ctx):
             'history_depth': 3,
             'history_create_menu': len(creates),
             'history_update_menu': len(updates),
+            'spelled_records': list(m.SPELLED_RECORDS),
+            'spelling_styles': sorted({m.style_name(st)
+                                       for _u, asg in m.spelling_plan(tier)
+                                       for st in asg}),
+            'spelling_units': sorted({'1024**%d' % u
+                                      for u, _a in m.spelling_plan(tier)}),
+            'spelling_configurations': len(m.spelling_plan(tier)),
+            'spelling_max_records_off_base_style': (
+                2 if tier == 'quick' else 3),
+            'spelling_request_traits': m.SPELLED_TRAITS,
         },
     }
     return {'coverage': cov, 'violations': violations,
